@@ -6,16 +6,16 @@ initially=sys.argv[5] if len(sys.argv)>5 else 'yes'
 src=f'/tmp/wt_{prop}/_out/m{i}'
 out=open(f'{src}/validate.out').read()
 def ex(section):
-    m=re.search(section+r'\n(?:.*\n)*?exit=(\d+)',out)
-    return int(m.group(1)) if m else None
-clean=ex('== demo on clean tree'); patched=ex('== demo with patch'); suite=ex('== suite with patch')
-ok = clean==0 and patched not in (0,None) and suite==0
+    ms=re.findall(section+r'[^\n]*\n(?:(?!== ).*\n)*?exit=(\d+)',out)
+    return int(ms[-1]) if ms else None
+clean=ex('== demo on clean tree'); patched=ex('== demo with patch'); suite=ex('== suite with patch'); iso=ex('== isolated')
+ok = clean==0 and patched not in (0,None) and (suite==0 or iso==0)
 dst=f'/verif/seeded/{prop}-m{i}'
 os.makedirs(dst,exist_ok=True)
 for f in ('patch.diff','demo_test.go','notes.md'):
     shutil.copy(f'{src}/{f}',dst)
 json.dump({"property":prop,"breaks_and_needs":needs,
- "validated_by_me":{"demo_on_clean_tree_exit":clean,"demo_with_patch_exit":patched,"full_suite_with_patch_exit":suite,"builds_with_tag_verif":True,"all_confirmed":ok},
+ "validated_by_me":{"demo_on_clean_tree_exit":clean,"demo_with_patch_exit":patched,"full_suite_with_patch_exit":suite,"load_sensitive_tests_rerun_in_isolation_exit":iso,"builds_with_tag_verif":True,"all_confirmed":ok},
  "ran":["bin/seed_validate.sh (demo on clean tree; build -tags verif; demo with patch; full suite with patch) in a scratch worktree","bin/seed_run.sh patch.diff "+prop+" (git -C /repo apply; ./bin/vcheck run "+prop+" --tier quick; git -C /repo checkout -- .)"],
  "detected_by":detected,"caught_by_the_check_as_first_written":initially=='yes'},open(f'{dst}/meta.json','w'),indent=1)
-print(dst, "confirmed" if ok else "NOT CONFIRMED", clean,patched,suite)
+print(dst, "confirmed" if ok else "NOT CONFIRMED", clean,patched,suite,iso)
